@@ -294,7 +294,7 @@ func dToken(r interface{}) string {
 			return "unknownMethod"
 		case strings.HasPrefix(v, "unable to parse route"), strings.HasPrefix(v, "unable to add route"):
 			return "rejected"
-		case v == "empty methods":
+		case strings.HasPrefix(v, "empty methods"):
 			return "emptyMethods"
 		case strings.HasPrefix(v, "handler must be a callable function"):
 			return "badHandler"
